@@ -19,8 +19,8 @@ func C19(c *core.Ctx) {
 		"additionalProperties of every kind, anyOf with 1..4 branches) and checks on EVERY emitted Unmarshal method: A-AON — the only write through the receiver is one final " +
 		"`*j = T(local)` immediately followed by `return nil`, every earlier return sits in an error branch, no nested `return nil`; A-NILG — every `*x` on the decoded value is " +
 		"dominated by `x != nil` (left conjunct or enclosing if), every index uses the variable of the enclosing `range` over the same expression, no division/modulo by the constant zero. " +
-		"Decided for all names/limits at once. Not decided: panics inside encoding/json, yaml, mapstructure, regexp; operations on the raw map (nil-safe in Go by definition)."
-	rules := ruleSet("A-AON", "A-NILG")
+		"A-TAGPAR (yaml option part): no yaml tag carries an option yaml.v3 refuses — Decode panics on such a struct type. Decided for all names/limits at once. Not decided: panics inside encoding/json, yaml, mapstructure, regexp; operations on the raw map (nil-safe in Go by definition)."
+	rules := ruleSet("A-AON", "A-NILG", "A-TAGPAR")
 	for _, cfg := range tierConfigs(c.Tier) {
 		for _, mb := range broadMembers(c.Tier, cfg) {
 			budget := 256
@@ -33,7 +33,13 @@ func C19(c *core.Ctx) {
 				budget = 8192
 			}
 			runMember(c, mb, rules, budget, func(w *fam.World, fm *fam.FileModel) []fam.Issue {
-				return fam.MethodIssues(fm)
+				out := fam.MethodIssues(fm)
+				for _, is := range fam.TagParityIssues(fm) {
+					if strings.Contains(is.Construct, "yaml.v3 refuses") {
+						out = append(out, is) // Decode panics on such a type
+					}
+				}
+				return out
 			})
 		}
 	}
@@ -46,9 +52,10 @@ func C17(c *core.Ctx) {
 	c.Explanation = engineAText +
 		"C17 (A-SIB): over the same broad union of families, generated with --extra-imports, the two emitted methods of every type (validating and enum unmarshalers) must be the same " +
 		"statement list after rewriting the decode call (json.Unmarshal(value,&X) / value.Decode(&X)) and the anyOf branch call (UnmarshalJSON/UnmarshalYAML); a type with only one of the two is a " +
-		"violation. The validators are shared code, but each emitter runs them separately on the same objects, so state leaking from the first pass into the second shows up as a difference. " +
+		"violation. A-TAGPAR: every field with a json and a yaml tag is bound to the same key by both libraries or skipped by both (a tag that is exactly \"-\" skips; \"-,\" binds the key - in encoding/json only), " +
+		"and no yaml tag carries an option yaml.v3 refuses (anything but omitempty/flow/inline, also the empty option of a trailing comma, makes Decode panic). The validators are shared code, but each emitter runs them separately on the same objects, so state leaking from the first pass into the second shows up as a difference. " +
 		"Not decided: scalar-typing differences between the two decoders themselves."
-	rules := ruleSet("A-SIB")
+	rules := ruleSet("A-SIB", "A-TAGPAR")
 	for _, cfg := range tierConfigs(c.Tier) {
 		for _, mb := range broadMembers(c.Tier, cfg) {
 			budget := 256
@@ -61,7 +68,7 @@ func C17(c *core.Ctx) {
 				budget = 8192
 			}
 			runMember(c, mb, rules, budget, func(w *fam.World, fm *fam.FileModel) []fam.Issue {
-				return fam.SibIssues(fm)
+				return append(fam.SibIssues(fm), fam.TagParityIssues(fm)...)
 			})
 		}
 	}
